@@ -185,7 +185,11 @@ func init() {
 			}
 		}
 		// ---- faults ----
-		s := rc.NewSim(simrt.Opts{MaxSteps: 400000, IdleLimit: time.Hour})
+		c06Opts := simrt.Opts{MaxSteps: 400000, IdleLimit: time.Hour}
+		if t.FBool(1, 2) {
+			c06Opts.Knobs = map[string]int{"rare/pkg/extractor/batchers.ReadAheadBufferSize": []int{1, 4, 9, 32, 128, 1024}[t.F(6)]}
+		}
+		s := rc.NewSim(c06Opts)
 		legal := &simrt.ReadPlan{ErrAt: -1, Chunk: t.FBool(1, 2)}
 		if t.FBool(1, 3) {
 			legal.LatPermille, legal.LatMaxMs = 300, 40
